@@ -19,7 +19,7 @@ WORKER_MAIN = os.path.join(VERIF, "pgmsim_worker.py")
 
 DEFAULT_BUDGET = {
     "quick": {"procs": 32, "runs": 20, "wall": 900},
-    "thorough": {"procs": 192, "runs": 120, "wall": 5400},
+    "thorough": {"procs": 192, "runs": 120, "wall": 14400},
 }
 
 
